@@ -91,6 +91,22 @@ def op_stmt():
     return st.tuples(op, st.sampled_from([True, True, True, True, False])).flatmap(with_pushes)
 
 
+def related_numbers_stmt():
+    """comparison / arithmetic operators on operands that are equal or adjacent (x, x+1, x-1): the boundaries of
+    WITHIN, LESSTHAN(OREQUAL), MIN/MAX, NUMEQUAL live there"""
+    ops3 = [V.OP_WITHIN]
+    ops2 = [V.OP_LESSTHAN, V.OP_GREATERTHAN, V.OP_LESSTHANOREQUAL, V.OP_GREATERTHANOREQUAL, V.OP_MIN, V.OP_MAX, V.OP_NUMEQUAL,
+            V.OP_NUMNOTEQUAL, V.OP_NUMEQUALVERIFY, V.OP_BOOLAND, V.OP_BOOLOR, V.OP_ADD, V.OP_SUB, V.OP_EQUAL]
+    base = st.one_of(st.integers(-3, 3), st.sampled_from([0, 1, -1, 16, 17, 127, 128, 255, 256, 2**31 - 1, -(2**31 - 1), 2**31 - 2]))
+    d = st.sampled_from([-1, 0, 0, 1])
+    enc = st.sampled_from(["opn", "opn", "min", "min", "p1"])
+
+    def mk(op, b, d1, d2, d3, e):
+        nums = [b + d1, b + d2, b + d3][:3 if op in ops3 else 2]
+        return [["n", v, e] for v in nums] + [["op", op]]
+    return st.builds(mk, weighted((1, st.sampled_from(ops3)), (2, st.sampled_from(ops2))), base, d, d, d, enc)
+
+
 def locktime_stmt():
     """CLTV / CSV with an operand related to the transaction's own lock time / input sequence"""
     kinds = ["eq", "+1", "-1", "bit16", "bit17", "bit21", "bit22", "bit23", "bit31", "mask16", "era", "neg", "zero", "big5"]
@@ -136,7 +152,7 @@ def multisig_stmt(cs=st.just(0), sig_variants=SIG_VARIANTS, key_forms=KEY_FORMS)
 
 def stmt_list(depth):
     base = weighted((2, push_tok().map(lambda t: [t])), (10, op_stmt()), (1, pick_roll_stmt()),
-                    (1, checksig_stmt()), (1, multisig_stmt()), (1, locktime_stmt()))
+                    (1, checksig_stmt()), (1, multisig_stmt()), (1, locktime_stmt()), (2, related_numbers_stmt()))
     if depth <= 0:
         return st.lists(base, max_size=5).map(lambda ls: [t for l in ls for t in l])
 
@@ -235,7 +251,16 @@ def eval_cases():
         if sv == 0:
             flags &= ~(V.MINIMALIF | V.WITNESS_PUBKEYTYPE)
         return dict(ctx, kind="eval", prog=prog, stack=stack, flags=flags, sigversion=sv)
-    return st.builds(mk, programs(), st.lists(datas(), max_size=4), flagsets(), contexts(), st.sampled_from([0, 0, 1]))
+    plain = st.builds(mk, programs(), st.lists(datas(), max_size=4), flagsets(), contexts(), st.sampled_from([0, 0, 1]))
+
+    # a signature-bearing lock program evaluated directly, its unlocking items (signatures valid by construction for
+    # the chosen sigversion) supplied as the initial stack; a few extra operations may follow
+    def mk_sig(lu, tail, flags, ctx, sv):
+        lock, unlock = lu
+        return mk(lock + tail, [["tok", t] for t in unlock], flags, ctx, sv)
+    tail = st.sampled_from([[], [], [], [["op", V.OP_NOT]], [["op", V.OP_DUP]], [["n", 1, "opn"], ["op", V.OP_BOOLAND]], [["op", V.OP_VERIFY], ["n", 1, "opn"]]])
+    signed = st.builds(mk_sig, lock_templates(), tail, flagsets(), contexts(), st.sampled_from([0, 1]))
+    return weighted((3, plain), (1, signed))
 
 
 # ------------------------------------------------------------------------------- spend-level cases
@@ -305,6 +330,28 @@ def lock_templates():
             lock = [["key", ka, "c"], ["op", V.OP_CHECKSIG], ["op", V.OP_SWAP if False else V.OP_VERIFY], emb, ["key", kb, "c"], ["op", V.OP_CHECKSIG]]
         return lock, [sa]
 
+    def sep_templates(ka, kb, hta, htb, shape_, cond, bad):
+        # OP_CODESEPARATOR in the middle of a script, doubled, and inside executed / unexecuted branches: each signature
+        # operation hashes the script from the last *executed* separator
+        S = ["op", V.OP_CODESEPARATOR]
+        va = "wrongmsg" if bad == 1 else "ok"
+        vb = "wrongmsg" if bad == 2 else "ok"
+        if shape_ == 0:      # A checked before the separator, B after it
+            lock = [["key", ka, "c"], ["op", V.OP_CHECKSIGVERIFY], S, ["key", kb, "c"], ["op", V.OP_CHECKSIG]]
+            return lock, [["sig", kb, htb, vb, 1], ["sig", ka, hta, va, 0]]
+        if shape_ == 1:      # two separators in a row, then one more between the operations
+            lock = [S, S, ["key", ka, "c"], ["op", V.OP_CHECKSIGVERIFY], S, ["key", kb, "c"], ["op", V.OP_CHECKSIG]]
+            return lock, [["sig", kb, htb, vb, 3], ["sig", ka, hta, va, 2]]
+        if shape_ == 2:      # separator inside a branch chosen by the unlocking side
+            lock = [["op", V.OP_IF], S, ["op", V.OP_ENDIF], ["key", ka, "c"], ["op", V.OP_CHECKSIG]]
+            return lock, [["sig", ka, hta, va, 1 if cond else 0], ["n", 1 if cond else 0, "opn"]]
+        if shape_ == 3:      # separator in the ELSE branch, another one before the IF
+            lock = [S, ["op", V.OP_IF], ["n", 5, "opn"], ["op", V.OP_DROP], ["op", V.OP_ELSE], S, ["op", V.OP_ENDIF], ["key", ka, "c"], ["op", V.OP_CHECKSIG]]
+            return lock, [["sig", ka, hta, va, 1 if cond else 2], ["n", 1 if cond else 0, "opn"]]
+        # separator after the last signature operation (still part of the hashed code, never executed before it)
+        lock = [["key", ka, "c"], ["op", V.OP_CHECKSIGVERIFY], ["n", 1, "opn"], S]
+        return lock, [["sig", ka, hta, va, 0]]
+
     def cltv(k, n, ht, which, kind):
         num = ["n", n, "min"] if kind is None else ["ctxnum", "locktime" if which == V.OP_CHECKLOCKTIMEVERIFY else "sequence", kind, "min"]
         lock = [num, ["op", which], ["op", V.OP_DROP], ["key", k, "c"], ["op", V.OP_CHECKSIG]]
@@ -329,6 +376,7 @@ def lock_templates():
                   st.sampled_from([V.OP_CHECKMULTISIG, V.OP_CHECKMULTISIG, V.OP_CHECKMULTISIGVERIFY]),
                   st.sampled_from(["opn", "opn", "opn", "min", "p1"]), st.sampled_from([False, False, True])),
         st.builds(embedded, ks, ht, st.booleans()),
+        st.builds(sep_templates, ks, ks, STD_HT, STD_HT, st.integers(0, 4), st.booleans(), st.sampled_from([0, 0, 0, 1, 2])),
         st.builds(two_sigops, ks, ks, STD_HT, weighted((2, st.just(1)), (1, STD_HT)), st.integers(0, 2), st.sampled_from([False, False, False, True])),
         st.builds(msig_partial, st.integers(2, 5), st.integers(1, 4), st.integers(0, 15),
                   st.lists(st.sampled_from(["empty", "empty", "wrongkey", "wrongmsg", "highs"]), min_size=1, max_size=2), STD_HT,
@@ -399,7 +447,19 @@ def spend_cases():
     ]
     raw = st.builds(mk_raw, st.sampled_from(raw_spks), st.sampled_from(["", "51", "0151", "00", "5151", "61", "5175", "0000"]),
                     st.sampled_from([[], [], ["01"], ["51"], ["", "51"]]), flagsets(), contexts())
-    return weighted((5, templ), (3, grammar), (2, wpkh), (1, raw))
+    # scriptPubKeys at the edges of the witness-program definition: version opcode x push length (script size 4..42)
+    def mk_wp(ver, ln, fill, sig, wit, flags, ctx, wrap):
+        prog = bytes([fill]) * ln
+        spk = bytes([ver]) + (bytes([ln]) if ln <= 75 else b"\x4c" + bytes([ln])) + prog
+        if wrap:     # the same bytes as a P2SH redeem script
+            return dict(ctx, kind="spend", shape="p2sh", lock=[["raw", spk.hex()]], unlock=[], flags=flags,
+                        mut=[["wit-append", wit]] if wit else [])
+        return mk_raw(spk.hex(), sig, wit, flags, ctx)
+    wprog = st.builds(mk_wp, st.sampled_from([0x00, 0x00, 0x51, 0x51, 0x52, 0x60, 0x4f, 0x50, 0x61]),
+                      st.sampled_from([0, 1, 2, 3, 19, 20, 21, 31, 32, 33, 39, 40, 40, 41, 41, 42, 76]), st.sampled_from([0x11, 0x11, 0x00, 0x01]),
+                      st.sampled_from(["", "", "", "51", "00"]), st.sampled_from([[], [], ["01"], ["", "51"]]), flagsets(), contexts(),
+                      st.sampled_from([False, False, True]))
+    return weighted((5, templ), (3, grammar), (2, wpkh), (1, raw), (1, wprog))
 
 
 # ------------------------------------------------------------------------------- raw byte scripts
@@ -416,7 +476,9 @@ def raw_spend_cases():
     def mk(sig, spk, wit, flags, ctx):
         return dict(ctx, kind="spend", shape="bare", lock=[["raw", spk]], unlock=[["raw", sig]], flags=flags,
                     mut=[["wit-append", wit]] if wit else [])
-    return st.builds(mk, raw_scripts(12), raw_scripts(40), st.lists(raw_scripts(8), max_size=2), flagsets(), contexts())
+    wit = weighted((5, st.just([])), (1, st.lists(raw_scripts(8), min_size=1, max_size=2)))
+    tail_true = st.sampled_from(["", "", "51", "51", "7451", "007451"[2:]])
+    return st.builds(lambda sig, spk, t, w, f, c: mk(sig, spk + t, w, f, c), raw_scripts(12), raw_scripts(40), tail_true, wit, flagsets(), contexts())
 
 
 def raw_eval_cases():
